@@ -92,6 +92,18 @@ func (p *Program) newInterp(eng *Engine) *interpreter {
 				if !initSet[pkg.Pkg.Path()] && isErrorType(mustDeref(g.Type())) {
 					cell = i.opaqueErr(pkg.Pkg.Name() + "." + g.Name())
 				}
+				// registered error sentinels (*cosmossdk.io/errors.Error) of packages whose init is
+				// not run: distinct non-nil values carrying their name
+				if !initSet[pkg.Pkg.Path()] {
+					if pt, ok := mustDeref(g.Type()).(*types.Pointer); ok {
+						if nt, ok := pt.Elem().(*types.Named); ok && nt.Obj().Pkg() != nil && nt.Obj().Pkg().Path() == "cosmossdk.io/errors" && nt.Obj().Name() == "Error" {
+							v := zero(nt)
+							st := v.(structure)
+							st[0], st[2] = pkg.Pkg.Name(), pkg.Pkg.Name()+"."+g.Name()
+							cell = &v
+						}
+					}
+				}
 				i.globals[g] = &cell
 			}
 		}
